@@ -112,9 +112,10 @@ def field(e, name, idx=None):
                 inner = b[3][0]
                 sty = b[2][0] if b[2] else ""
                 if var == "Continue" and (name == "0" or idx == 0):
+                    # `?` continues only with the Ok/Some arms of what it is applied to: `match x {Some(v) => Ok(v), None => Err(..)}?` is `v`
                     if sty.startswith("std::option::Option<"):
-                        return field(("V", inner, "Some"), "0", 0)
-                    return field(("V", inner, "Ok"), "0", 0)
+                        return field(downcast(inner, "Some"), "0", 0)
+                    return field(downcast(inner, "Ok"), "0", 0)
                 if var == "Break":
                     return ("RESID", inner)
             if var == "Ok" and fk == "std::result::Result::<T, E>::map_err":
@@ -1035,6 +1036,12 @@ def canon_guard(c, lab):
     while c[0] == "U" and c[1] == "Not":
         c = c[2]
         truth = not truth
+    # `x.is_none()` is `!x.is_some()`, `r.is_err()` is `!r.is_ok()`
+    if c[0] == "C" and isinstance(c[1], str):
+        for neg_, pos_ in (("::is_none", "::is_some"), ("::is_err", "::is_ok")):
+            if c[1].endswith(neg_) and ("Option" in c[1] or "Result" in c[1]):
+                c = (c[0], c[1][:-len(neg_)] + pos_) + tuple(c[2:])
+                truth = not truth
     h = as_has(c)
     if h is not None:
         neg, x, f = h
